@@ -33,6 +33,7 @@ struct ThreadDriver : vrt::Driver {
   EpochManager *mgr = nullptr;
   size_t hashes[kMaxT] = {};
   Saved saved[32];
+  std::shared_ptr<size_t> strong[32];
   std::optional<EpochGuard> guard[kMaxT];
   const std::vector<size_t> *list[kMaxT] = {};
   int barrier_count[8] = {};
@@ -135,6 +136,20 @@ struct ThreadDriver : vrt::Driver {
       saved[slot].id = static_cast<long>(IDManager::GetThreadID());
       saved[slot].used = true;
       vrt::Log("{\"e\":\"hbget\",\"t\":%d,\"k\":%d,\"id\":%ld,\"x\":%d}", t, slot, saved[slot].id, saved[slot].hb.expired());
+    } else if (k == "HBL") {
+      // the client keeps a locked (strong) reference to a heartbeat: legal use of the weak_ptr it was given
+      int slot = atoi(op.f[1].c_str());
+      strong[slot] = saved[slot].hb.lock();
+      vrt::NoteWrite();
+      vrt::Log("{\"e\":\"hblock\",\"t\":%d,\"k\":%d,\"got\":%d}", t, slot, strong[slot] != nullptr);
+    } else if (k == "HBU") {
+      int slot = atoi(op.f[1].c_str());
+      strong[slot].reset();
+      vrt::NoteWrite();
+      vrt::Log("{\"e\":\"hbunlock\",\"t\":%d,\"k\":%d}", t, slot);
+    } else if (k == "WAITHB") {
+      int slot = atoi(op.f[1].c_str());
+      vrt::BlockUntil([&] { return saved[slot].used; });
     } else if (k == "EXP") {
       int slot = atoi(op.f[1].c_str());
       vrt::Log("{\"e\":\"exp\",\"t\":%d,\"k\":%d,\"owner\":%d,\"x\":%d}", t, slot, saved[slot].owner, saved[slot].hb.expired());
@@ -180,6 +195,13 @@ struct ThreadDriver : vrt::Driver {
           vrt::Log("{\"e\":\"relist\",\"t\":%d,\"list\":%s}", t, ListJson(*list[t]).c_str());
         }
       }
+    } else if (k == "GR") {
+      // release idiom: overwrite the live guard by move assignment from an empty one
+      vrt::Log("{\"e\":\"dcall\",\"t\":%d}", t);
+      *guard[t] = EpochGuard{};
+      list[t] = nullptr;
+      vrt::Log("{\"e\":\"dret\",\"t\":%d}", t);
+      guard[t].reset();
     } else if (k == "D") {
       vrt::Log("{\"e\":\"dcall\",\"t\":%d}", t);
       guard[t].reset();
